@@ -701,3 +701,43 @@ def c18(run):
 
 
 MODES["C18"] = "camt"
+
+
+# ------------------------------------------------------------------ C15
+def sig_c15(run):
+    listed = set(f["signature"] for f in run.known.get("findings", []) if f["property"] == "C15")
+
+    def sig(rec, r, v):
+        # line ends are sanitised by the importer (what is built no longer has them), so a record is
+        # attributed by its other unrepresentable features; records whose only feature is a line end
+        # (and every representable record) are never attributed to a listed finding
+        faults = [f for f in (rec.get("faults") or []) if not f.endswith("_line_end")]
+        if faults and all(f in listed for f in faults) and not v.get("kind", "").startswith(("panic", "output_does_not_parse", "transaction_count")):
+            return sorted(faults)[0]
+        return v.get("kind")
+    return sig
+
+
+@check("C15")
+def c15(run):
+    run.rule = ("spec/ImportText.tla: 9 payees x 5 codes x 7 notes x 9 bank-style amounts (grouping commas, currency prefix, leading minus, 0-4 decimals) x "
+                "configured precision none/0/2/4 = 11,340 statement records, of which 864 are representable in the ledger grammar and the rest violate at "
+                "least one conjunct of Representable (`;`, line ends, leading `(..)` or clear mark in the payee; parentheses or line ends in the code; line "
+                "ends, `key: value` or `:tags:` shape in the note); each through the CSV importer and (without note) the Camt053 importer; "
+                "non-trivial = records with a hostile feature")
+    run.assumptions += ["an importer may refuse a record it cannot represent; it may not print something that reads back differently",
+                        "text fields are compared after trimming blanks; numbers by value and by scale = max(written scale, configured precision)",
+                        "Viseca statements are not generated (fixed-layout text format; its payee flows through the same Txn::new)"]
+    nd, n, st = tlc_gen("MCImportText.tla", "ImportText.cfg", "C15-gen", workers=4, timeout=1700)
+    run.add_model(st)
+    recs, res = feed(run, "imptext", nd, sig_of=sig_c15(run), key=lambda r: json.dumps(r["rec"], sort_keys=True))
+    cls = {}
+    for r in res:
+        for c in r.get("classes", []):
+            cls[c] = cls.get(c, 0) + 1
+    run.extra["classes"] = cls
+    run.nontrivial = set(i for i, r in enumerate(res) if any(c.startswith("hostile_") for c in r.get("classes", [])))
+    run.exhaustive = True
+
+
+MODES["C15"] = "imptext"
